@@ -193,7 +193,10 @@ func (u *Universe) RunTwinsC13(behaviours [][]int, alphabet []Op, tw *TraceWrite
 				}
 			}
 		}
-		for _, s := range saves {
+		// save points from the last to the first: a load that fails leaves the trace validator's stack
+		// cut at that depth, and every later restart point must lie below it
+		for si := len(saves) - 1; si >= 0; si-- {
+			s := saves[si]
 			var twin *Replica
 			load := Obs{Events: []J{}, Updates: []J{}, Begin: []J{}}
 			func() {
